@@ -41,6 +41,8 @@ def T0 : Nat := 1000000000
 
 /-- all_users grows by this many slots (comm.c new_interactive) -/
 abbrev userChunk : Nat := NV.Gen.C09.userChunk
+/-- MAX_VERB_BUFF of user_parser() (simulate.c) -/
+abbrev maxVerbBuff : Nat := NV.Gen.C09.maxVerbBuff
 /-- look_for_objects_to_swap runs every `sweepPeriod` seconds -/
 abbrev sweepPeriod : Nat := NV.Gen.C09.sweepPeriod
 /-- ResetDuration of the verification configuration: next_reset = now + D/2 + rand () % (D/2); the configuration
@@ -373,9 +375,7 @@ def runOps (rh : HookFn) (self : Oid) : List Op → W → R
   | op :: rest, w =>
     match op with
     | .ok => runOps rh self rest w
-    | .err =>
-      let w := emit w (.xErr self.name)
-      (errorHandler w s!"boom {self.name}", true)
+    | .err => (errorHandler (emit w (.xErr self.name)) s!"boom {self.name}", true)
     | .cerr =>
       -- catch(): own error context around the failing expression
       runOps rh self rest (popCtx (caughtError (pushCtx (emit w (.xCerr self))) s!"cboom {self.name}"))
@@ -420,8 +420,9 @@ def mudlibConnect (S : Scripts) (w : W) : W × Option Oid × Bool :=
   let w := emit w (.tConnect k)
   match S.connect k with
   | .err =>
-    let w := emit w (.xErr s!"k{k}")
-    (errorHandler w s!"boom k{k}", none, true)
+    -- safe_apply_master_ob (fix commit): connect() runs under its own recovery point; the error is reported as
+    -- usual and the connection then counts as rejected (the caller removes the record bound to the master)
+    (popCtx (errorHandler (emit (pushCtx w) (.xErr s!"k{k}")) s!"boom {s!"k{k}"}"), none, false)
   | .rej => (w, none, false)
   | .ok =>
     match w.inter .master with
@@ -567,8 +568,10 @@ def inputStage (rh : HookFn) (w : W) (cg : Oid) (line : String) (hasPI : Bool) :
 def commandStage (rh : HookFn) (w : W) (cg : Oid) (line : String) : R :=
   if cg = .master then (w, false)           -- user_parser(): no O_ENABLE_COMMANDS, nothing happens
   else if w.dead cg then (w, false) else
-    let r := rh (emit w (.tCmd cg line)) cg (.cmd line)
-    if r.2 then (r.1, true) else (addOut r.1 cg s!"ack_{line}|", false)
+    -- user_parser(): the verb is copied into verb_buff[MAX_VERB_BUFF] (strncpy, MAX_VERB_BUFF - 1 characters)
+    let verb := (line.take (maxVerbBuff - 1)).toString
+    let r := rh (emit w (.tCmd cg verb)) cg (.cmd verb)
+    if r.2 then (r.1, true) else (addOut r.1 cg s!"ack_{verb}|", false)
 
 /-- process_user_command() once get_user_command() has picked a record: (state, processed, uncaught error) -/
 def serveCommand (rh : HookFn) (w : W) (c0 : Conn) : W × Bool × Bool :=
@@ -765,18 +768,26 @@ def insertByKey (e : Nat × String) : List (Nat × String) → List (Nat × Stri
   | [] => [e]
   | x :: xs => if e.1 < x.1 then e :: x :: xs else x :: insertByKey e xs
 
+/-- (client, output) of every connection that still exists -/
+def liveOuts (w : W) : List (Nat × String) := (slots w).filterMap (fun s => s.map (fun c => (c.client, c.out)))
+
+/-- outputs the harness can still read: not of clients the script itself closed -/
+def allOuts (w : W) : List (Nat × String) :=
+  (w.outs.reverse ++ liveOuts w).filter (fun e => !(w.closedByScript.contains e.1))
+
+def exitEv (w : W) : Ev := if w.shutdown then .exitShutdown else .exitLoop
+def outEv (e : Nat × String) : Ev := .out s!"c{e.1}" e.2
+def consoleOutEv (w : W) : Ev := .out "console" (String.join (((allOuts w).filter (fun e => e.1 = 0)).map (·.2)))
+
+/-- `exit ...`, `hbs`, `slots` -/
+def finishHead (w : W) : W :=
+  emit (emit (emit w (exitEv w)) (.hbs (sortStrings (w.hbs.map Oid.name)))) (.slots (liveOuts w).length)
+
 /-- final observations printed by the harness after backend() returned -/
 def finish (w : W) : W :=
-  let w := emit w (if w.shutdown then .exitShutdown else .exitLoop)
-  let w := emit w (.hbs (sortStrings (w.hbs.map Oid.name)))
-  let live := (slots w).filterMap (fun s => s.map (fun c => (c.client, c.out)))
-  let w := emit w (.slots live.length)
-  let all := (w.outs.reverse ++ live).filter (fun e => !(w.closedByScript.contains e.1))
-  let net := (all.filter (fun e => e.1 ≠ 0)).foldr insertByKey []
-  let w := net.foldl (fun w e => emit w (.out s!"c{e.1}" e.2)) w
-  if w.mode = .console then
-    emit w (.out "console" (String.join ((all.filter (fun e => e.1 = 0)).map (·.2))))
-  else w
+  let w1 := (((allOuts w).filter (fun e => e.1 ≠ 0)).foldr insertByKey []).foldl (fun v e => emit v (outEv e))
+              (finishHead w)
+  if w.mode = .console then emit w1 (consoleOutEv w) else w1
 
 def runFull (S : Scripts) (w0 : W) (h : List (List Action)) : W :=
   let rh := runHook S hookFuel
